@@ -677,4 +677,6 @@ def controls(ctx, F):
     return [("R1", "easing-leaks", "splitter copy whose carried easing is updated by keyframes that omit the property"),
             ("R1", "index-map-not-parallel", "splitter copy that adds an index-map entry only for keyframes with data"),
             ("R2", "bounding-pair-wrong", "lookup copy that returns (frame idx, frame idx) instead of (idx-1, idx)"),
+            ("R2", "index-map-bypassed", "lookup copy that uses the master index as frame index when both tables have equal length"),
+            ("R2", "position-compared-with-non-frame", "value_at copy that narrows the override flag by a threshold on the position"),
             ("R3", "easing-from-wrong-frame", "eased lerp copy that takes the easing of the end frame")]
